@@ -531,9 +531,9 @@ package measure
 //@   modifies right.idx
 //@   loop 0 invariant who: target == old(target) && ((left == old(left) && right == old(right)) || (left == old(right) && right == old(left)))
 //@   loop 0 invariant apart: sep(target, left) && sep(target, right)
-//@   at-stmt "target.append(left, i)" requires keeps-the-left-duplicate-only-if-not-older: (!isTopN && i > left.idx && left.timestamps[i-1] == ts2) ==> left.versions[i-1] >= right.versions[right.idx]
-//@   at-stmt "target.append(right, right.idx+1)" requires right-replaces-only-a-strictly-older-duplicate: i > left.idx && left.timestamps[i-1] == ts2 && left.versions[i-1] < right.versions[right.idx]
-//@   at-stmt "target.append(left, i-1)" requires the-dropped-left-row-is-the-duplicate: i > left.idx && left.timestamps[i-1] == ts2
+//@   at-stmt "target.append(left, i)" requires keeps-the-left-duplicate-only-if-not-older: (!isTopN && i > left.idx && left.timestamps[i-1] == right.timestamps[right.idx]) ==> left.versions[i-1] >= right.versions[right.idx]
+//@   at-stmt "target.append(right, right.idx+1)" requires right-replaces-only-a-strictly-older-duplicate: i > left.idx && left.timestamps[i-1] == right.timestamps[right.idx] && left.versions[i-1] < right.versions[right.idx]
+//@   at-stmt "target.append(left, i-1)" requires the-dropped-left-row-is-the-duplicate: i > left.idx && left.timestamps[i-1] == right.timestamps[right.idx]
 //
 // queryResult.merge (query-time heap merge): a cursor row is appended to the result only when its timestamp differs from
 // the last row's, and it overwrites the last row only when it has the same timestamp and a strictly higher version than
